@@ -449,6 +449,7 @@ func (c *Cache[K, V]) applyWriteBatch(s *shard[K, V], batch []writeCommand[K, V]
 	}
 	for _, ch := range acks {
 		ch <- struct{}{}
+		verifAckInc()
 	}
 }
 
